@@ -365,6 +365,61 @@ var corpus = []scripted{
 			h.drain(4)
 		})
 	}},
+	{"requests issued between a failed write of another goroutine and the read routine going offline", baseOpts(), func(h *hist) {
+		h.quiet(func() {
+			h.sc.budgetIn = 0
+			h.connectQuiet()
+			h.sc.wscript = []writeAns{{wHard, 2}}
+			h.publish(false, []byte("p"), "t") // the write fails: connect pending, Online still released
+			h.ping()                           // installs its slot, then waits for the write semaphore
+			h.subscribe(1, []string{"a/b"})
+			h.unsubscribe([]string{"c"})
+			h.doRead() // goes offline (releases slot and transactions); the redial fails: ErrDown for all three
+			h.doRead()
+			h.ping()
+			h.goodSuffix()
+		})
+	}},
+	{"the broker stops in the middle of a packet and stays silent", baseOpts(), func(h *hist) {
+		h.quiet(func() {
+			h.sc.budgetIn = 0
+			h.connectQuiet()
+			pk := brokerPublish(1, false, 5, "in/cut", []byte("0123456789"))
+			h.sc.inject = [][]byte{pk[:7]}
+			h.sc.silentAfter = true
+			h.doRead() // gives up after a deadline expiry without progress
+			h.doRead() // redials
+			h.goodSuffix()
+		})
+	}},
+	{"the broker stops in the middle of an acknowledgement and stays silent", baseOpts(), func(h *hist) {
+		h.quiet(func() {
+			h.sc.budgetIn = 0
+			h.connectQuiet()
+			h.sc.opts.lossRate = 1000
+			h.pubP(1, false, []byte("A"), "t")
+			h.sc.inject = [][]byte{{0x40, 2, 0x80}}
+			h.sc.silentAfter = true
+			h.doRead()
+			h.sc.opts.lossRate = 0
+			h.doRead()
+			h.goodSuffix()
+		})
+	}},
+	{"F26: the PINGRESP of an abandoned Ping completes the next Ping", baseOpts(), func(h *hist) {
+		h.quiet(func() {
+			h.sc.budgetIn = 0
+			h.connectQuiet()
+			h.sc.opts.lossRate = 1000 // the PINGRESP is late
+			h.ping()
+			h.quit(h.nextR - 1) // abandoned after submission
+			h.ping()            // a second PINGREQ goes out
+			h.sc.inject = [][]byte{{0xd0, 0}, brokerPublish(0, false, 0, "in/p", []byte("x"))} // the answer to the FIRST one
+			h.doRead()
+			h.sc.opts.lossRate = 0
+			h.goodSuffix()
+		})
+	}},
 	{"big message pending at Close", func() seqOpts { o := baseOpts(); o.bufSize = 32; return o }(), func(h *hist) {
 		h.quiet(func() {
 			h.sc.budgetIn = 0
@@ -617,7 +672,14 @@ func init() {
 	runners["SEQ"] = histRunner("SEQ", "all4_run", true, 60, 1500, general)
 	runners["C01"] = histRunner("C01", "c01_run", false, 250, 3000, outbound)
 	runners["C02"] = histRunner("C02", "c02_run", false, 250, 3000, func(r *rng, i int) seqOpts { o := outbound(r, i); o.adoptRate = pick(r, 6, 12); return o })
-	runners["C03"] = histRunner("C03", "c03_run", false, 250, 3000, func(r *rng, i int) seqOpts { o := outbound(r, i); o.max1 = 0; return o })
+	runners["C03"] = histRunner("C03", "c03_run", false, 250, 3000, func(r *rng, i int) seqOpts {
+		o := outbound(r, i)
+		o.max1 = 0
+		if r.chance(1, 6) {
+			o.max2 = pick(r, -1, 16384, 20000, 1<<16) // the limit is cut down to the identifier space
+		}
+		return o
+	})
 	runners["C04"] = histRunner("C04", "c04_run", false, 250, 3000, inbound)
 	runners["C05"] = histRunner("C05", "c05_run", false, 250, 3000, outbound)
 	runners["C07"] = histRunner("C07", "c07_run", false, 250, 3000, inbound)
